@@ -594,6 +594,10 @@ def _invoke(fn, args, kw, limit, findings, where, type_only):
     except BaseException as e:
         if isinstance(e, (isolate.ChildFailed, MemoryError)) or type(e).__name__ == 'SimBudgetExceeded':
             raise
+        if isinstance(e, RecursionError):
+            # running out of stack and running out of step budget are the same outcome: the call did not finish
+            # (the worlds differ in stack depth per call level because of the monitor's wrapper frames)
+            return ('div',)
         if worlds.link_witness(e):
             site = worlds.innermost_package_frame(e)
             if site is not None:
